@@ -36,7 +36,8 @@ static void catalogue_sweep(const uint64_t* Ns, size_t nN, unsigned seeds_small,
             case_end(0);
             continue;
           }
-          op_exec(o, env, seed, (int)((sd + 2) & 3), sd, monitors, &r2);  // same placement, different pre-fill
+          op_exec(o, env, seed, (int)((sd + 2) & 3), sd, monitors | MON_RERUN, &r2);  // same placement, different pre-fill; then once more on the same buffers
+          if (r2.rerun_differs) viol("undefined-output", "%s [%s]: %s (N=%" PRIu64 ")", o->name, r1.shape, r2.msg, N);
           if (r1.canary_bad || r2.canary_bad) viol("canary", "%s [%s]: %s", o->name, r1.shape, r1.canary_bad ? r1.msg : r2.msg);
           if (r1.out_hash != r2.out_hash) viol("undefined-output", "%s [%s]: output depends on the previous content of the output/scratch buffers (N=%" PRIu64 ")", o->name, r1.shape, N);
           if ((monitors & MON_VALGRIND) && (r1.msg[0] || r2.msg[0]) && !r1.canary_bad && !r2.canary_bad) viol("undefined-output", "%s [%s]: %s", o->name, r1.shape, r1.msg[0] ? r1.msg : r2.msg);
